@@ -18,7 +18,7 @@ func init() {
 		Run:      runC07,
 		Explanation: "Decides the optimistic-concurrency shape of every kv.Client.CAS implementation from source: (R1) the version token written back is the token read by the read whose value was handed to the caller's function, in the same retry iteration; " +
 			"(R2) the only write primitive on the CAS path is the conditional one; (R3) success is returned only on a confirmed conditional write, a declining function returns before any write; (R4) the in-memory stores compare and write inside one critical section with an exact equality compare (guard tables over exists × token-equality; etcd mock comparison operators evaluated over orderings); " +
-			"(R5) every write bumps the token; (R6) wrappers forward the caller's function unchanged, exactly once; (R7) in-memory stores hand out copies, never the stored object. Also: (R8) the instrumented consul API answers with the wrapped call's own results (the CAS success flag is the store's flag). NOT decided: linearizability of actual histories; the real Consul/etcd servers are trusted.",
+			"(R5) every write bumps the token; (R6) wrappers forward the caller's function unchanged, exactly once; (R7) in-memory stores hand out copies, never the stored object. Also: (R8) the instrumented consul API answers with the wrapped call's own results (the CAS success flag is the store's flag). (R6 also) the value MultiClient mirrors to the secondary store is the output of the last attempt: assigned once, on every path of the closure. NOT decided: linearizability of actual histories; the real Consul/etcd servers are trusted.",
 		Assumptions: []string{"Consul's KV.CAS and etcd's Txn/If/Then semantics are as documented (trusted external services)"},
 	}
 }
